@@ -428,7 +428,13 @@ func c16r4(c *Ctx, id string) {
 		for _, f := range fns {
 			allInstrs(f, func(in ssa.Instruction) {
 				cc := callOf(in)
-				if cc == nil || !cc.IsInvoke() || !strings.HasSuffix(types.TypeString(cc.Value.Type(), nil), "stream.Stream") {
+				// any (possibly narrowed) interface view of the stream
+				streamT := w.NamedType("stream", "stream")
+				ifc, isIfc := cc0Iface(cc)
+				if cc == nil || !cc.IsInvoke() || streamT == nil || !isIfc || ifc.NumMethods() == 0 || !types.Implements(types.NewPointer(streamT), ifc) {
+					return
+				}
+				if !strings.Contains(strings.ToLower(types.TypeString(cc.Value.Type(), nil)), "stream") {
 					return
 				}
 				getter := w.Method("stream", "stream", cc.Method.Name())
@@ -494,4 +500,12 @@ func c16r4(c *Ctx, id string) {
 			}
 		})
 	}
+}
+
+func cc0Iface(cc *ssa.CallCommon) (*types.Interface, bool) {
+	if cc == nil || cc.Value == nil {
+		return nil, false
+	}
+	i, ok := cc.Value.Type().Underlying().(*types.Interface)
+	return i, ok
 }
